@@ -103,4 +103,117 @@ theorem struct_row5 (i : In K) (k : Cut K) :
   repeat' apply And.intro
   all_goals ring
 
+/-! ## the cut values -/
+abbrev cuts (i : In K) : Cut K := Gen3TL.N3_L_material_cuts c c3 fn i
+
+theorem zmat_cuts (hc : c * c = 2) (i : In K) : zmat (cuts c c3 fn i) = eig (Mm i) (Tm c i) := by
+  have hi : c⁻¹ = c / 2 := c_inv hc two_ne_zero
+  simp only [zmat, cuts, Gen3TL.N3_L_material_cuts, gen_simp, eig, Mm, Tm, M3.sym, M3.mul_def, M3.mul, M3.transpose,
+    M3.mk.injEq, div_eq_mul_inv, hi]
+  repeat' apply And.intro
+  all_goals c24_ring hc
+
+theorem Nc_cuts (hc : c * c = 2) (i : In K) (a : Fin 6) :
+    Nc (cuts c c3 fn i) a = eig (Mm i) (E c a) := by
+  fin_cases a <;>
+  · simp only [Nc, Nc0, Nc1, Nc2, Nc3, Nc4, Nc5, cuts, Gen3TL.N3_L_material_cuts, gen_simp, eig, Mm, E, M3.sym,
+      M3.mul_def, M3.mul, M3.transpose, M3.mk.injEq, Fin.zero_eta, Fin.mk_one, Fin.reduceFinMk, Fin.isValue]
+    repeat' apply And.intro
+    all_goals c24_ring hc
+
+theorem coef_cuts (i : In K) :
+    let k := cuts c c3 fn i
+    k.f0 = 4 * sv i 0 ∧ k.f1 = 4 * sv i 1 ∧ k.f2 = 4 * sv i 2
+    ∧ k.eta = eta3 i.vp0 i.vp1 i.vp2 i.e0 i.e1 i.e2
+    ∧ k.xi01 = xi i.vp0 i.vp1 i.e0 i.e1 (dv i 1) ∧ k.xi02 = xi i.vp0 i.vp2 i.e0 i.e2 (dv i 2)
+    ∧ k.xi10 = xi i.vp1 i.vp0 i.e1 i.e0 (dv i 0) ∧ k.xi12 = xi i.vp1 i.vp2 i.e1 i.e2 (dv i 2)
+    ∧ k.xi20 = xi i.vp2 i.vp0 i.e2 i.e0 (dv i 0) ∧ k.xi21 = xi i.vp2 i.vp1 i.e2 i.e1 (dv i 1) := by
+  simp only [cuts, Gen3TL.N3_L_material_cuts, gen_simp, sv, dv, eta3, xi]
+  repeat' apply And.intro
+  all_goals ring
+
+theorem so_cuts (hc : c * c = 2) (i : In K)
+    (hl : ∀ a b : Fin 3, a ≠ b → lam i a ≠ lam i b) (a b : Fin 6) :
+    so (cuts c c3 fn i) a b
+      = 4 * D2 (lam i) (ev i) (dv i) (sv i) (eig (Mm i) (Tm c i)) (eig (Mm i) (E c a)) (eig (Mm i) (E c b)) := by
+  obtain ⟨h0, h1, h2, h3, h4, h5, h6, h7, h8, h9⟩ := coef_cuts c c3 fn i
+  simp only [so]
+  rw [zmat_cuts c c3 fn hc, Nc_cuts c c3 fn hc, Nc_cuts c c3 fn hc, h0, h1, h2, h3, h4, h5, h6, h7, h8, h9]
+  exact miehe3_eq_D2 (lam i) (ev i) (dv i) (sv i) _ _ _
+    (isSym_eig _ _ (isSym_sym ..)) (isSym_eig _ _ (isSym_E c a)) (isSym_eig _ _ (isSym_E c b)) hl
+
+/-! ## the property: converted tangent = 4 pᵀ Ks p + 4 T : D²E_log(C) -/
+theorem N3_L_material_row0 (hc : c * c = 2) (i : In K)
+    (hl : ∀ a b : Fin 3, a ≠ b → lam i a ≠ lam i b) :
+    [Gen3TL.N3_L_material_Kr0_0_full c c3 fn i, Gen3TL.N3_L_material_Kr0_1_full c c3 fn i, Gen3TL.N3_L_material_Kr0_2_full c c3 fn i, Gen3TL.N3_L_material_Kr0_3_full c c3 fn i, Gen3TL.N3_L_material_Kr0_4_full c c3 fn i, Gen3TL.N3_L_material_Kr0_5_full c c3 fn i]
+    = [4 * quad6 (P i) (KS i) 0 0 + 4 * D2 (lam i) (ev i) (dv i) (sv i) (eig (Mm i) (Tm c i)) (eig (Mm i) (E c 0)) (eig (Mm i) (E c 0)),
+       4 * quad6 (P i) (KS i) 0 1 + 4 * D2 (lam i) (ev i) (dv i) (sv i) (eig (Mm i) (Tm c i)) (eig (Mm i) (E c 0)) (eig (Mm i) (E c 1)),
+       4 * quad6 (P i) (KS i) 0 2 + 4 * D2 (lam i) (ev i) (dv i) (sv i) (eig (Mm i) (Tm c i)) (eig (Mm i) (E c 0)) (eig (Mm i) (E c 2)),
+       4 * quad6 (P i) (KS i) 0 3 + 4 * D2 (lam i) (ev i) (dv i) (sv i) (eig (Mm i) (Tm c i)) (eig (Mm i) (E c 0)) (eig (Mm i) (E c 3)),
+       4 * quad6 (P i) (KS i) 0 4 + 4 * D2 (lam i) (ev i) (dv i) (sv i) (eig (Mm i) (Tm c i)) (eig (Mm i) (E c 0)) (eig (Mm i) (E c 4)),
+       4 * quad6 (P i) (KS i) 0 5 + 4 * D2 (lam i) (ev i) (dv i) (sv i) (eig (Mm i) (Tm c i)) (eig (Mm i) (E c 0)) (eig (Mm i) (E c 5))] := by
+  simp only [Gen3TL.N3_L_material_Kr0_0_full, Gen3TL.N3_L_material_Kr0_1_full, Gen3TL.N3_L_material_Kr0_2_full, Gen3TL.N3_L_material_Kr0_3_full, Gen3TL.N3_L_material_Kr0_4_full, Gen3TL.N3_L_material_Kr0_5_full]
+  rw [struct_row0 c c3 fn i (cuts c c3 fn i)]
+  simp only [so_cuts c c3 fn hc i hl]
+theorem N3_L_material_row1 (hc : c * c = 2) (i : In K)
+    (hl : ∀ a b : Fin 3, a ≠ b → lam i a ≠ lam i b) :
+    [Gen3TL.N3_L_material_Kr1_0_full c c3 fn i, Gen3TL.N3_L_material_Kr1_1_full c c3 fn i, Gen3TL.N3_L_material_Kr1_2_full c c3 fn i, Gen3TL.N3_L_material_Kr1_3_full c c3 fn i, Gen3TL.N3_L_material_Kr1_4_full c c3 fn i, Gen3TL.N3_L_material_Kr1_5_full c c3 fn i]
+    = [4 * quad6 (P i) (KS i) 1 0 + 4 * D2 (lam i) (ev i) (dv i) (sv i) (eig (Mm i) (Tm c i)) (eig (Mm i) (E c 1)) (eig (Mm i) (E c 0)),
+       4 * quad6 (P i) (KS i) 1 1 + 4 * D2 (lam i) (ev i) (dv i) (sv i) (eig (Mm i) (Tm c i)) (eig (Mm i) (E c 1)) (eig (Mm i) (E c 1)),
+       4 * quad6 (P i) (KS i) 1 2 + 4 * D2 (lam i) (ev i) (dv i) (sv i) (eig (Mm i) (Tm c i)) (eig (Mm i) (E c 1)) (eig (Mm i) (E c 2)),
+       4 * quad6 (P i) (KS i) 1 3 + 4 * D2 (lam i) (ev i) (dv i) (sv i) (eig (Mm i) (Tm c i)) (eig (Mm i) (E c 1)) (eig (Mm i) (E c 3)),
+       4 * quad6 (P i) (KS i) 1 4 + 4 * D2 (lam i) (ev i) (dv i) (sv i) (eig (Mm i) (Tm c i)) (eig (Mm i) (E c 1)) (eig (Mm i) (E c 4)),
+       4 * quad6 (P i) (KS i) 1 5 + 4 * D2 (lam i) (ev i) (dv i) (sv i) (eig (Mm i) (Tm c i)) (eig (Mm i) (E c 1)) (eig (Mm i) (E c 5))] := by
+  simp only [Gen3TL.N3_L_material_Kr1_0_full, Gen3TL.N3_L_material_Kr1_1_full, Gen3TL.N3_L_material_Kr1_2_full, Gen3TL.N3_L_material_Kr1_3_full, Gen3TL.N3_L_material_Kr1_4_full, Gen3TL.N3_L_material_Kr1_5_full]
+  rw [struct_row1 c c3 fn i (cuts c c3 fn i)]
+  simp only [so_cuts c c3 fn hc i hl]
+theorem N3_L_material_row2 (hc : c * c = 2) (i : In K)
+    (hl : ∀ a b : Fin 3, a ≠ b → lam i a ≠ lam i b) :
+    [Gen3TL.N3_L_material_Kr2_0_full c c3 fn i, Gen3TL.N3_L_material_Kr2_1_full c c3 fn i, Gen3TL.N3_L_material_Kr2_2_full c c3 fn i, Gen3TL.N3_L_material_Kr2_3_full c c3 fn i, Gen3TL.N3_L_material_Kr2_4_full c c3 fn i, Gen3TL.N3_L_material_Kr2_5_full c c3 fn i]
+    = [4 * quad6 (P i) (KS i) 2 0 + 4 * D2 (lam i) (ev i) (dv i) (sv i) (eig (Mm i) (Tm c i)) (eig (Mm i) (E c 2)) (eig (Mm i) (E c 0)),
+       4 * quad6 (P i) (KS i) 2 1 + 4 * D2 (lam i) (ev i) (dv i) (sv i) (eig (Mm i) (Tm c i)) (eig (Mm i) (E c 2)) (eig (Mm i) (E c 1)),
+       4 * quad6 (P i) (KS i) 2 2 + 4 * D2 (lam i) (ev i) (dv i) (sv i) (eig (Mm i) (Tm c i)) (eig (Mm i) (E c 2)) (eig (Mm i) (E c 2)),
+       4 * quad6 (P i) (KS i) 2 3 + 4 * D2 (lam i) (ev i) (dv i) (sv i) (eig (Mm i) (Tm c i)) (eig (Mm i) (E c 2)) (eig (Mm i) (E c 3)),
+       4 * quad6 (P i) (KS i) 2 4 + 4 * D2 (lam i) (ev i) (dv i) (sv i) (eig (Mm i) (Tm c i)) (eig (Mm i) (E c 2)) (eig (Mm i) (E c 4)),
+       4 * quad6 (P i) (KS i) 2 5 + 4 * D2 (lam i) (ev i) (dv i) (sv i) (eig (Mm i) (Tm c i)) (eig (Mm i) (E c 2)) (eig (Mm i) (E c 5))] := by
+  simp only [Gen3TL.N3_L_material_Kr2_0_full, Gen3TL.N3_L_material_Kr2_1_full, Gen3TL.N3_L_material_Kr2_2_full, Gen3TL.N3_L_material_Kr2_3_full, Gen3TL.N3_L_material_Kr2_4_full, Gen3TL.N3_L_material_Kr2_5_full]
+  rw [struct_row2 c c3 fn i (cuts c c3 fn i)]
+  simp only [so_cuts c c3 fn hc i hl]
+theorem N3_L_material_row3 (hc : c * c = 2) (i : In K)
+    (hl : ∀ a b : Fin 3, a ≠ b → lam i a ≠ lam i b) :
+    [Gen3TL.N3_L_material_Kr3_0_full c c3 fn i, Gen3TL.N3_L_material_Kr3_1_full c c3 fn i, Gen3TL.N3_L_material_Kr3_2_full c c3 fn i, Gen3TL.N3_L_material_Kr3_3_full c c3 fn i, Gen3TL.N3_L_material_Kr3_4_full c c3 fn i, Gen3TL.N3_L_material_Kr3_5_full c c3 fn i]
+    = [4 * quad6 (P i) (KS i) 3 0 + 4 * D2 (lam i) (ev i) (dv i) (sv i) (eig (Mm i) (Tm c i)) (eig (Mm i) (E c 3)) (eig (Mm i) (E c 0)),
+       4 * quad6 (P i) (KS i) 3 1 + 4 * D2 (lam i) (ev i) (dv i) (sv i) (eig (Mm i) (Tm c i)) (eig (Mm i) (E c 3)) (eig (Mm i) (E c 1)),
+       4 * quad6 (P i) (KS i) 3 2 + 4 * D2 (lam i) (ev i) (dv i) (sv i) (eig (Mm i) (Tm c i)) (eig (Mm i) (E c 3)) (eig (Mm i) (E c 2)),
+       4 * quad6 (P i) (KS i) 3 3 + 4 * D2 (lam i) (ev i) (dv i) (sv i) (eig (Mm i) (Tm c i)) (eig (Mm i) (E c 3)) (eig (Mm i) (E c 3)),
+       4 * quad6 (P i) (KS i) 3 4 + 4 * D2 (lam i) (ev i) (dv i) (sv i) (eig (Mm i) (Tm c i)) (eig (Mm i) (E c 3)) (eig (Mm i) (E c 4)),
+       4 * quad6 (P i) (KS i) 3 5 + 4 * D2 (lam i) (ev i) (dv i) (sv i) (eig (Mm i) (Tm c i)) (eig (Mm i) (E c 3)) (eig (Mm i) (E c 5))] := by
+  simp only [Gen3TL.N3_L_material_Kr3_0_full, Gen3TL.N3_L_material_Kr3_1_full, Gen3TL.N3_L_material_Kr3_2_full, Gen3TL.N3_L_material_Kr3_3_full, Gen3TL.N3_L_material_Kr3_4_full, Gen3TL.N3_L_material_Kr3_5_full]
+  rw [struct_row3 c c3 fn i (cuts c c3 fn i)]
+  simp only [so_cuts c c3 fn hc i hl]
+theorem N3_L_material_row4 (hc : c * c = 2) (i : In K)
+    (hl : ∀ a b : Fin 3, a ≠ b → lam i a ≠ lam i b) :
+    [Gen3TL.N3_L_material_Kr4_0_full c c3 fn i, Gen3TL.N3_L_material_Kr4_1_full c c3 fn i, Gen3TL.N3_L_material_Kr4_2_full c c3 fn i, Gen3TL.N3_L_material_Kr4_3_full c c3 fn i, Gen3TL.N3_L_material_Kr4_4_full c c3 fn i, Gen3TL.N3_L_material_Kr4_5_full c c3 fn i]
+    = [4 * quad6 (P i) (KS i) 4 0 + 4 * D2 (lam i) (ev i) (dv i) (sv i) (eig (Mm i) (Tm c i)) (eig (Mm i) (E c 4)) (eig (Mm i) (E c 0)),
+       4 * quad6 (P i) (KS i) 4 1 + 4 * D2 (lam i) (ev i) (dv i) (sv i) (eig (Mm i) (Tm c i)) (eig (Mm i) (E c 4)) (eig (Mm i) (E c 1)),
+       4 * quad6 (P i) (KS i) 4 2 + 4 * D2 (lam i) (ev i) (dv i) (sv i) (eig (Mm i) (Tm c i)) (eig (Mm i) (E c 4)) (eig (Mm i) (E c 2)),
+       4 * quad6 (P i) (KS i) 4 3 + 4 * D2 (lam i) (ev i) (dv i) (sv i) (eig (Mm i) (Tm c i)) (eig (Mm i) (E c 4)) (eig (Mm i) (E c 3)),
+       4 * quad6 (P i) (KS i) 4 4 + 4 * D2 (lam i) (ev i) (dv i) (sv i) (eig (Mm i) (Tm c i)) (eig (Mm i) (E c 4)) (eig (Mm i) (E c 4)),
+       4 * quad6 (P i) (KS i) 4 5 + 4 * D2 (lam i) (ev i) (dv i) (sv i) (eig (Mm i) (Tm c i)) (eig (Mm i) (E c 4)) (eig (Mm i) (E c 5))] := by
+  simp only [Gen3TL.N3_L_material_Kr4_0_full, Gen3TL.N3_L_material_Kr4_1_full, Gen3TL.N3_L_material_Kr4_2_full, Gen3TL.N3_L_material_Kr4_3_full, Gen3TL.N3_L_material_Kr4_4_full, Gen3TL.N3_L_material_Kr4_5_full]
+  rw [struct_row4 c c3 fn i (cuts c c3 fn i)]
+  simp only [so_cuts c c3 fn hc i hl]
+theorem N3_L_material_row5 (hc : c * c = 2) (i : In K)
+    (hl : ∀ a b : Fin 3, a ≠ b → lam i a ≠ lam i b) :
+    [Gen3TL.N3_L_material_Kr5_0_full c c3 fn i, Gen3TL.N3_L_material_Kr5_1_full c c3 fn i, Gen3TL.N3_L_material_Kr5_2_full c c3 fn i, Gen3TL.N3_L_material_Kr5_3_full c c3 fn i, Gen3TL.N3_L_material_Kr5_4_full c c3 fn i, Gen3TL.N3_L_material_Kr5_5_full c c3 fn i]
+    = [4 * quad6 (P i) (KS i) 5 0 + 4 * D2 (lam i) (ev i) (dv i) (sv i) (eig (Mm i) (Tm c i)) (eig (Mm i) (E c 5)) (eig (Mm i) (E c 0)),
+       4 * quad6 (P i) (KS i) 5 1 + 4 * D2 (lam i) (ev i) (dv i) (sv i) (eig (Mm i) (Tm c i)) (eig (Mm i) (E c 5)) (eig (Mm i) (E c 1)),
+       4 * quad6 (P i) (KS i) 5 2 + 4 * D2 (lam i) (ev i) (dv i) (sv i) (eig (Mm i) (Tm c i)) (eig (Mm i) (E c 5)) (eig (Mm i) (E c 2)),
+       4 * quad6 (P i) (KS i) 5 3 + 4 * D2 (lam i) (ev i) (dv i) (sv i) (eig (Mm i) (Tm c i)) (eig (Mm i) (E c 5)) (eig (Mm i) (E c 3)),
+       4 * quad6 (P i) (KS i) 5 4 + 4 * D2 (lam i) (ev i) (dv i) (sv i) (eig (Mm i) (Tm c i)) (eig (Mm i) (E c 5)) (eig (Mm i) (E c 4)),
+       4 * quad6 (P i) (KS i) 5 5 + 4 * D2 (lam i) (ev i) (dv i) (sv i) (eig (Mm i) (Tm c i)) (eig (Mm i) (E c 5)) (eig (Mm i) (E c 5))] := by
+  simp only [Gen3TL.N3_L_material_Kr5_0_full, Gen3TL.N3_L_material_Kr5_1_full, Gen3TL.N3_L_material_Kr5_2_full, Gen3TL.N3_L_material_Kr5_3_full, Gen3TL.N3_L_material_Kr5_4_full, Gen3TL.N3_L_material_Kr5_5_full]
+  rw [struct_row5 c c3 fn i (cuts c c3 fn i)]
+  simp only [so_cuts c c3 fn hc i hl]
+
 end TfelVerif.C24.Props3T
